@@ -70,7 +70,8 @@ pub broadcast axiom fn axiom_bytes_of(s: Seq<u8>)
 // (the functions of src/http/delta.rs that contain the format strings) is
 // OPAQUE: its rendered text is not modelled, it appends exactly one token.
 // Item(p, first): the JSON object for payload p, preceded by a comma unless first.
-pub enum Tok<'a> { Header, Item(PayloadRef<'a>, bool), Sep, Footer }
+// Header(session, from_serial (None: reset document), to_serial): the opening part of the document.
+pub enum Tok<'a> { Header(u64, Option<Serial>, Serial), Item(PayloadRef<'a>, bool), Sep, Footer }
 pub uninterp spec fn trace<'a>(bytes: Seq<u8>) -> Seq<Tok<'a>>;
 // ASSUMED: nothing rendered, nothing traced
 pub broadcast axiom fn axiom_trace_empty<'a>()
@@ -80,3 +81,87 @@ pub broadcast axiom fn axiom_trace_empty<'a>()
 // its one method `next` is extracted from `impl PayloadSet for SnapshotArcIter`
 // as an inherent method, so the trait itself is an empty marker here.
 pub trait PayloadSet { }
+
+// ---- further API of the env types used in src/http/delta.rs and the payload modules
+impl Serial {
+    pub uninterp spec fn u32_spec(&self) -> u32;
+    #[verifier::external_body]
+    pub fn add(self, other: u32) -> Serial { unimplemented!() }
+}
+impl vstd::std_specs::convert::FromSpecImpl<u32> for Serial {
+    open spec fn obeys_from_spec() -> bool { false }
+    uninterp spec fn from_spec(v: u32) -> Serial;
+}
+impl From<u32> for Serial {
+    #[verifier::external_body]
+    fn from(value: u32) -> (r: Serial) ensures r.u32_spec() == value,
+    { unimplemented!() }
+}
+impl PartialEqSpecImpl for Serial {
+    open spec fn obeys_eq_spec() -> bool { true }
+    open spec fn eq_spec(&self, other: &Serial) -> bool { *self == *other }
+}
+impl PartialEq for Serial {
+    #[verifier::external_body]
+    fn eq(&self, other: &Self) -> bool { unimplemented!() }
+}
+impl Bytes {
+    #[verifier::external_body]
+    pub fn len(&self) -> (r: usize) ensures r == self@.len(),
+    { unimplemented!() }
+    #[verifier::external_body]
+    pub fn is_empty(&self) -> (r: bool) ensures r == (self@.len() == 0),
+    { unimplemented!() }
+    #[verifier::external_body]
+    pub fn new() -> (r: Bytes) ensures r@ == Seq::<u8>::empty(),
+    { unimplemented!() }
+}
+impl<'a> vstd::std_specs::convert::FromSpecImpl<RouteOrigin> for PayloadRef<'a> {
+    open spec fn obeys_from_spec() -> bool { true }
+    open spec fn from_spec(v: RouteOrigin) -> PayloadRef<'a> { PayloadRef::Origin(v) }
+}
+impl<'a> From<RouteOrigin> for PayloadRef<'a> {
+    #[verifier::external_body]
+    fn from(v: RouteOrigin) -> PayloadRef<'a> { unimplemented!() }
+}
+
+// ---- std functions without a vstd specification (ASSUMED; their documented meaning)
+pub assume_specification<T, E> [std::result::Result::<T, E>::unwrap_or] (_0: std::result::Result<T, E>, _1: T) -> (r: T)
+    where E: std::marker::Destruct, T: std::marker::Destruct,
+    ensures r == (match _0 { Ok(v) => v, Err(_) => _1 }),
+;
+pub assume_specification<T, E> [std::result::Result::<T, E>::unwrap_or_default] (_0: std::result::Result<T, E>) -> (r: T)
+    where E: std::marker::Destruct, T: std::default::Default + std::marker::Destruct,
+    ensures _0 matches Ok(v) ==> r == v,
+;
+pub assume_specification<T> [std::cmp::min] (_0: T, _1: T) -> (r: T)
+    where T: std::cmp::Ord + std::marker::Destruct,
+    ensures T::obeys_cmp_spec() ==> r == (if _0.cmp_spec(&_1) == std::cmp::Ordering::Greater { _1 } else { _0 }),
+;
+pub assume_specification<T> [std::cmp::max] (_0: T, _1: T) -> (r: T)
+    where T: std::cmp::Ord + std::marker::Destruct,
+    ensures T::obeys_cmp_spec() ==> r == (if _0.cmp_spec(&_1) == std::cmp::Ordering::Greater { _0 } else { _1 }),
+;
+pub assume_specification<T> [<[T]>::contains] (_0: &[T], _1: &T) -> (r: bool)
+    where T: std::cmp::PartialEq,
+    ensures T::obeys_eq_spec() ==> r == exists|i: int| 0 <= i < _0@.len() && (#[trigger] _0@[i]).eq_spec(_1),
+;
+pub assume_specification<T, P> [std::option::Option::<T>::filter] (_0: std::option::Option<T>, _1: P) -> (r: std::option::Option<T>)
+    where P: std::ops::FnOnce(&T,) -> bool + std::marker::Destruct, T: std::marker::Destruct,
+    ensures _0 is None ==> r is None,
+            r matches Some(v) ==> _0 == Some(v) && _1.ensures((&v,), true),
+            (_0 is Some && r is None) ==> _1.ensures((&_0->Some_0,), false),
+;
+pub assume_specification<'a, T> [std::option::Option::<&T>::copied] (_0: std::option::Option<&'a T>) -> (r: std::option::Option<T>)
+    where T: std::marker::Copy,
+    ensures r == (match _0 { Some(v) => Some(*v), None => None }),
+;
+pub assume_specification<T, U, F> [std::option::Option::<T>::map_or] (_0: std::option::Option<T>, _1: U, _2: F) -> (r: U)
+    where F: std::ops::FnOnce(T,) -> U + std::marker::Destruct, U: std::marker::Destruct,
+    ensures _0 is None ==> r == _1,
+            _0 matches Some(v) ==> _2.ensures((v,), r),
+;
+pub assume_specification<T> [std::option::Option::<T>::or] (_0: std::option::Option<T>, _1: std::option::Option<T>) -> (r: std::option::Option<T>)
+    where T: std::marker::Destruct,
+    ensures r == (if _0 is Some { _0 } else { _1 }),
+;
